@@ -38,6 +38,10 @@ type c19Case struct {
 	// FullDisk: the output goes to /dev/full (every write fails with ENOSPC): the tool cannot emit the container
 	// and must say so with a non-zero exit status
 	FullDisk  bool `json:"output_device_full,omitempty"`
+	// TmpDir: the tool runs with TMPDIR pointing at this directory (another file system than the output's)
+	TmpDir string `json:"tmpdir,omitempty"`
+	// GoRun: the tool is started the way its Makefile does it: `go run <tool>.go ...` in the tool's directory
+	GoRun bool `json:"go_run_single_file,omitempty"`
 	OutExists bool `json:"output_exists_longer,omitempty"`
 	InPlace   int  `json:"in_place,omitempty"`
 }
@@ -166,6 +170,25 @@ func c19Run(dir string, bin string, cs *c19Case) []string {
 	defer cancel()
 	cmd := exec.CommandContext(ctx, bin, args...)
 	cmd.Dir = dir
+	if cs.TmpDir != "" {
+		cmd.Env = append(os.Environ(), "TMPDIR="+cs.TmpDir)
+	}
+	if cs.GoRun {
+		// absolute paths for the files, the tool's own directory as working directory
+		repo := os.Getenv("VERIF_REPO")
+		if repo == "" {
+			repo = "/repo"
+		}
+		abs := append([]string{"run", cs.Tool + ".go"}, args...)
+		for i, a := range abs {
+			if a == cs.File || a == outArg {
+				abs[i] = filepath.Join(dir, a)
+			}
+		}
+		cmd = exec.CommandContext(ctx, "go", abs...)
+		cmd.Dir = filepath.Join(repo, "cmd", cs.Tool)
+		cmd.Env = append(os.Environ(), "GOFLAGS=-mod=mod", "GOPROXY=off", "GOSUMDB=off", "GOTOOLCHAIN=local")
+	}
 	if piped {
 		// the image arrives through a pipe: its size is only known once it has been read
 		cmd.Stdin = bytes.NewReader(body)
@@ -282,7 +305,7 @@ func checkC19(c *Ctx) {
 	} else {
 		c.Set("piped_input", "skipped: no /dev/stdin here")
 	}
-	// -nam given twice (the last one counts); the output device is full
+	// -nam given twice (the last one counts); TMPDIR on another file system than the output; the tools started as their Makefiles do (go run <tool>.go); the output device is full
 	for _, l := range []int{1, 300} {
 		for _, pair := range [][2]string{{"GAME01", "AB"}, {"GAME01", ""}, {"AB", "GAME01"}, {"ABCDEFGHIJ", "x"}, {"x", "ABCDEFGHIJ"}} {
 			cases = append(cases, c19Case{Tool: "cim2cas", Len: l, Off: -1, Content: 1, Name: pair[1], Name2: pair[0], File: "g.cim"})
@@ -294,6 +317,19 @@ func checkC19(c *Ctx) {
 				cases = append(cases, c19Case{Tool: tool, Len: l, Off: -1, Content: 1, Name: "FULL", File: "in.cim", FullDisk: true})
 			}
 		}
+	}
+	// TMPDIR on another file system than the output (a tmpfs /tmp and a project in $HOME)
+	if st, err := os.Stat("/dev/shm"); err == nil && st.IsDir() {
+		for _, tool := range []string{"cim2bin", "cim2cas"} {
+			for _, l := range []int{1, 5000} {
+				cases = append(cases, c19Case{Tool: tool, Len: l, Off: -1, Content: 1, Name: "TMP", File: "in.cim", TmpDir: "/dev/shm"})
+				cases = append(cases, c19Case{Tool: tool, Len: l, Off: -1, Content: 1, Name: "TMP", File: "in.cim", TmpDir: "/dev/shm", OutExists: true})
+			}
+		}
+	}
+	// the way the tools' own Makefiles start them: go run <tool>.go in the tool's directory
+	for _, tool := range []string{"cim2bin", "cim2cas"} {
+		cases = append(cases, c19Case{Tool: tool, Len: 300, Off: -1, Content: 1, Name: "GORUN", File: "in.cim", GoRun: true})
 	}
 	// the output file exists already and is longer; the image is converted in place
 	for _, tool := range []string{"cim2bin", "cim2cas"} {
@@ -331,7 +367,7 @@ func checkC19(c *Ctx) {
 	c.Transitions = c.Evaluations
 	c.Traces = c.Evaluations
 	c.Exhaustive = true
-	c.Rule = fmt.Sprintf("%d runs of the command binaries built from the current tree: tools {cim2bin, cim2cas} x offsets {0,1,0x4000, flag omitted (=0xA000), 0xA000, 0xFFFE, 0xFFFF} x image lengths {1,2,255,256,4096,65535-off,65536-off (end address = 0xFFFF)} (thorough: 9 more) x contents {zeros, ramp, FF, header look-alike} x for cim2cas names {omitted (default = file name, also shorter and longer than six), \"\", 1,2,5,6,7,12 characters, with a space, with a dot}; the image also piped in through /dev/stdin and reached through a symbolic link; the output file already existing and longer than the container; conversion in place (output path = input path, or a symbolic link to it); -nam given twice (the last one counts); the output on a full device (/dev/full: non-zero exit status required); output compared byte for byte with a header model (0xFE/start/end/exec; sync, 10 x D0, name[6], sync, start/end/exec) + unmodified body. All cases are distinct and non-trivial (each produces a container).", len(cases))
+	c.Rule = fmt.Sprintf("%d runs of the command binaries built from the current tree: tools {cim2bin, cim2cas} x offsets {0,1,0x4000, flag omitted (=0xA000), 0xA000, 0xFFFE, 0xFFFF} x image lengths {1,2,255,256,4096,65535-off,65536-off (end address = 0xFFFF)} (thorough: 9 more) x contents {zeros, ramp, FF, header look-alike} x for cim2cas names {omitted (default = file name, also shorter and longer than six), \"\", 1,2,5,6,7,12 characters, with a space, with a dot}; the image also piped in through /dev/stdin and reached through a symbolic link; the output file already existing and longer than the container; conversion in place (output path = input path, or a symbolic link to it); -nam given twice (the last one counts); TMPDIR on another file system than the output; the tools started as their Makefiles do (go run <tool>.go); the output on a full device (/dev/full: non-zero exit status required); output compared byte for byte with a header model (0xFE/start/end/exec; sync, 10 x D0, name[6], sync, start/end/exec) + unmodified body. All cases are distinct and non-trivial (each produces a container).", len(cases))
 	c.Bound = "lattice " + c.Tier
 	c.Sample(cases[0])
 	c.Sample(cases[len(cases)-1])
